@@ -17,18 +17,24 @@ import numpy as np
 from .. import models
 from ..core import RunResult, adigest, mix
 from ..driver import pristine_library_state
-from .hist_common import SAME, TAU, call_value, quiet
+from .hist_common import SAME, TAU, quiet
+from .hist_common import call_value as _call_value
 
 NAME = "H"
 PROPERTY = "C12"
 RUNS = {"quick": 220, "thorough": 5000}
 RUN_WALL_CAP = 300.0
-REQUIRED_PROBES = {"quick": ["kets_list", "density_list", "hierarchy_not_last", "hierarchy_then_ppt", "level2", "dims_2x3", "complex_states", "bell_list", "primal_value", "local_unitary_checked", "two_lists_same_shape", "same_ensemble_parties_swapped", "same_ensemble_other_order", "same_array_object_twice"], "thorough": ["kets_list", "density_list", "hierarchy_not_last", "hierarchy_then_ppt", "level2", "level2_2x3", "dims_2x3", "complex_states", "bell_list", "primal_value", "local_unitary_checked"]}
+REQUIRED_PROBES = {"quick": ["kets_list", "density_list", "hierarchy_not_last", "hierarchy_then_ppt", "level2", "dims_2x3", "complex_states", "bell_list", "primal_value", "local_unitary_checked", "two_lists_same_shape", "same_ensemble_parties_swapped", "same_ensemble_other_order", "same_array_object_twice", "mixed_dtype_ensemble"], "thorough": ["kets_list", "density_list", "hierarchy_not_last", "hierarchy_then_ppt", "level2", "level2_2x3", "dims_2x3", "complex_states", "bell_list", "primal_value", "local_unitary_checked"]}
 COMPONENTS = {"real": ["toqito.state_opt.ppt_distinguishability (primal and dual)", "toqito.state_opt.symmetric_extension_hierarchy", "toqito.state_opt.state_distinguishability", "toqito.channels.partial_trace / partial_transpose (cvxpy branch)", "toqito.perms.symmetric_projection", "picos + cvxopt, cvxpy + SCS/Clarabel"], "stub": []}
 RULE = ("one run = one caller-owned list of 2..4 states on 2x2, 2x3 or 3x2, sometimes with a second list used in between (same shape, another shape, or the same ensemble with the two parties written in the other order) (column kets / density matrices / 1-D vectors where accepted; real and complex; arbitrary prior; or the four Bell kets) reused by 3..6 calls in seeded order: "
         "ppt_distinguishability (party 0 or 1, primal or dual), symmetric_extension_hierarchy (level 1 or 2, dim as list / scalar / omitted), state_distinguishability; "
         "non-trivial = the list holds kets (the form the hierarchy converts) and is used by >=2 operations with the hierarchy not last; distinct = distinct digest of (list, prior, operation sequence)")
 SHRINK_ORDER = ["config", "states", "ops"]
+
+
+def call_value(fn, res, label):
+    return _call_value(fn, res, label, prop="C12")
+
 
 
 def _lib():
@@ -67,7 +73,18 @@ def draw_states(st, run_index, like=None):
     if like is not None:
         n = like["n"]
     L = []
-    for _ in range(n):
+    # a complex ensemble whose arrays do not all have a complex dtype: the first (and some other) states are real
+    # arrays, one of them possibly an integer-typed basis state - what the FIRST array looks like says nothing
+    # about the ensemble
+    mixed = cplx and like is None and st.draw(3) == 0
+    ens_cplx = cplx
+    for i_state in range(n):
+        cplx = ens_cplx and not (mixed and (i_state == 0 or (i_state < n - 1 and st.draw(2))))
+        if mixed and not cplx and st.draw(3) == 0:
+            e = np.zeros(d, dtype=int)
+            e[st.draw(d)] = 1
+            L.append(np.outer(e, e) if kind == "density" else (e.reshape(d, 1) if kind == "kets" else e))
+            continue
         if kind == "density":
             rank = 1 + st.draw(d)
             g = rng.standard_normal((d, rank)) + (1j * rng.standard_normal((d, rank)) if cplx else 0)
@@ -102,7 +119,11 @@ def draw_states(st, run_index, like=None):
         probs = [1.0 / n] * n
     else:
         probs = None
-    return L, probs, dims, {"kind": kind, "dims": dims, "n": n, "complex": cplx, "prior": pk}
+    cplx = ens_cplx
+    meta = {"kind": kind, "dims": dims, "n": n, "complex": cplx, "prior": pk}
+    if mixed:
+        meta["dtypes"] = [str(np.asarray(a).dtype) for a in L]
+    return L, probs, dims, meta
 
 
 def draw_ops(st, kind, dims, tier):
@@ -218,6 +239,8 @@ def run(cs, tier, run_index):
         res.probe("dims_3x2")
     if meta["complex"]:
         res.probe("complex_states")
+    if "dtypes" in meta:
+        res.probe("mixed_dtype_ensemble")
     if meta["kind"] in ("kets", "density") and len(L) <= 3 and cs.s("config:dup").draw(6) == 0:
         # the caller may list the same array object twice (two equal states with separate priors)
         L.append(L[0])
